@@ -153,7 +153,7 @@ Proof.
 Qed.
 
 (* hence every event of the composite re-establishes the wake-up invariant of its module *)
-Corollary module_event_inv t m spawn fire w :
+Corollary module_event_inv t m spawn (fire : bool) w :
   Pre t (if fire then sched_fire t (drv_of w m) else drv_of w m) ->
   Inv t (drv_of (module_event t m spawn fire w) m).
 Proof.
